@@ -95,7 +95,9 @@ func runC12(cfg *config, res *monitor.Result) {
 			foreign[k][p.Flavour] = d
 		}
 	}
-	for _, t := range cfg.targets(false) {
+	// plain types (the runtime's own marshal code) and fast types (csproto.Marshal runs the generated extension code)
+	targets := append(cfg.targets(false), cfg.targets(true)...)
+	for _, t := range targets {
 		exts := t.pkg.Exts[t.md.FullName()]
 		if len(exts) == 0 {
 			continue
@@ -127,7 +129,11 @@ func runC12(cfg *config, res *monitor.Result) {
 				num := dfd.Number()
 				kindKey := fmt.Sprintf("%s/%s", dfd.Kind(), map[bool]string{true: "repeated", false: "optional"}[dfd.IsList()])
 				viol := func(fn, failure, what string) {
-					sig := fmt.Sprintf("C12:%s:%s:%s:%s", t.pkg.Flavour, fn, failure, kindKey)
+					fl := t.pkg.Flavour
+					if t.pkg.Fast {
+						fl += "+fast"
+					}
+					sig := fmt.Sprintf("C12:%s:%s:%s:%s", fl, fn, failure, kindKey)
 					res.Violate(sig, fmt.Sprintf("%s (%s) extension %s: %s (history %v)", t.md.FullName(), t.pkg.GoPkg, dfd.Name(), what, trace),
 						map[string]any{"package": t.pkg.GoPkg, "message": string(t.md.FullName()), "extension": string(dfd.FullName()), "history": append([]string(nil), trace...)})
 				}
@@ -309,7 +315,7 @@ func runC12(cfg *config, res *monitor.Result) {
 				}
 			}
 			if setSeen && clearSeen {
-				classes[fmt.Sprintf("%s/%s/%s", t.pkg.Flavour, t.pkg.Unit, opBigrams(trace))]++
+				classes[fmt.Sprintf("%s/fast=%v/%s/%s", t.pkg.Flavour, t.pkg.Fast, t.pkg.Unit, opBigrams(trace))]++
 			}
 			if res.WantSample() && s == 1 {
 				res.Sample(map[string]any{"package": t.pkg.GoPkg, "message": string(t.md.FullName()), "history": trace})
